@@ -20,13 +20,21 @@ import (
 func main() {
 	_ = logger.SetLogLevel("*:NONE")
 	r := vk.Start("C12")
-	r.Rule("random shuffler inputs: 1-4 shards + metachain, minimums 1-5, per-shard eligible/waiting sizes 0-12 around the minimum (at, above, far above, below), 0-8 new nodes, unstake/additional leaving lists drawn from eligible, waiting, unknown, new-node and duplicated keys (none/light/medium/heavy/all), epochs 0-12 on both sides of the balance and waiting-list-fix activation epochs, both distributors, 0-3 MaxNodesChangeConfig entries, empty/short/32-byte randomness; a case is non-trivial when UpdateNodeLists returned a result for a non-empty validator set; distinct = distinct (shards, minimums, flags, max swap, per-shard sizes, new count, leaving composition by class)")
+	r.Rule("two families of cases. (a) random shuffler inputs: 1-4 shards + metachain, minimums 1-5, per-shard eligible/waiting sizes 0-12 around the minimum (at, above, far above, below), 0-8 new nodes, unstake/additional leaving lists drawn from eligible, waiting, unknown, new-node and duplicated keys (none/light/medium/heavy/all), epochs 0-12 on both sides of the balance and waiting-list-fix activation epochs, both distributors, 0-3 MaxNodesChangeConfig entries, empty/short/32-byte randomness. (b) configuration extremes (sg.GenExtreme, the last ~quarter of the cases): metachain-only network (0 shards), 1, 2, 3-4 or 5-8 shards, eligible and waiting map each nil / allocated without keys / empty lists only / populated, every shard exactly at its minimum / slightly above / one oversized shard (15-30 above) / one shard below its minimum / mixed, whole population waiting or whole population eligible, 0 / 1 / 2-5 / 10-25 new nodes, leaving lists biased to 'everybody leaves', adaptivity on in a third of them (split/merge preparation paths), hysteresis up to 1; a case is non-trivial when UpdateNodeLists returned a result for a non-empty validator set; distinct = distinct (shards, minimums, flags, max swap, per-shard sizes, new count, leaving composition by class; for (b) also the two map shapes, per-shard key presence, adaptivity, hysteresis)")
 	r.Assume("eligible, waiting and new keys of an input are pairwise distinct (duplicates and unknown keys only occur in the leaving lists)", "an input whose shard has fewer than the minimum eligible+waiting is rejected with an error by the shuffler and gives nothing to check")
 	r.MinShapes(200)
 	n := r.N(20000, 1200000)
+	nExt := r.N(7000, 400000)
 
-	r.Parallel(n, func(c *vk.Case) {
-		in := sg.Gen(c.Rng, sg.Opts{})
+	r.Parallel(n+nExt, func(c *vk.Case) {
+		var in *sg.Input
+		extreme := c.Idx >= n
+		if extreme {
+			in = sg.GenExtreme(c.Rng)
+			r.Count("extreme_cases", 1)
+		} else {
+			in = sg.Gen(c.Rng, sg.Opts{})
+		}
 		out := in.Run(nil)
 		r.Eval(1)
 		if out.Err != "" {
@@ -57,7 +65,24 @@ func main() {
 			r.Trivial()
 			return
 		}
-		r.Shape(in.Sig())
+		if extreme {
+			r.Shape(in.ExtSig())
+			r.Count("extreme_results_checked", 1)
+			r.Count(fmt.Sprintf("extreme_checked_shards_%d", in.NbShards), 1)
+			es, ws := in.EligibleShape(), in.WaitingShape()
+			r.Count("extreme_checked_eligible_"+es+"_waiting_"+ws, 1)
+			if in.NbShards == 0 && len(in.New) > 0 && (ws == sg.MapNil || ws == sg.MapNoKeys) {
+				r.Count("extreme_checked_metachain_only_no_waiting_key_with_new_nodes", 1)
+			}
+			if es != sg.MapPopulated && ws != sg.MapPopulated {
+				r.Count("extreme_checked_only_new_nodes", 1)
+			}
+			if in.Adaptivity {
+				r.Count("extreme_checked_with_adaptivity", 1)
+			}
+		} else {
+			r.Shape(in.Sig())
+		}
 		r.Count("results_checked", 1)
 		if in.FixActive() {
 			r.Count("with_waiting_list_fix", 1)
@@ -153,5 +178,12 @@ func main() {
 			r.Sample(detail())
 		}
 	})
+	if r.ReplayCase < 0 {
+		for _, k := range []string{"extreme_checked_shards_0", "extreme_checked_shards_1", "extreme_checked_metachain_only_no_waiting_key_with_new_nodes", "extreme_checked_only_new_nodes", "extreme_checked_with_adaptivity"} {
+			if r.Counter(k) < 20 {
+				r.Inconclusive(fmt.Sprintf("configuration extreme %q was checked only %d times (floor 20)", k, r.Counter(k)))
+			}
+		}
+	}
 	r.Finish()
 }
